@@ -3,6 +3,8 @@
 
   FutureFSM       labtech.runners.process.Future
   SmallModels     labtech.utils.LoggerFileProxy, labtech.utils.OrderedSet, labtech.runners.process.ProcessMonitor
+  LabRunTrace     implementation-level trace validation: is every recorded execution (hook events + the rig's environment
+                  steps) a behaviour of LabRun?  A drift measure of the model, not a property verdict.
   LabRun (Grow)   task naming (G01) and progress bars (G02) of TaskCoordinator.run: model-checked through the
                   refinement mapping, then judged by the monitor on executions along TLC-generated schedules
 """
@@ -66,6 +68,63 @@ def labrun_growth(scratch):
         f'names and {bars} progress bars judged by the monitor, {len(bad)} disagree' + (f'; first: {first}' if first else ''))
 
 
+def labrun_conformance(scratch):
+    """Executions along TLC-generated schedules (no interrupts, and interrupts at the locations where a hook event
+    coincides with an action boundary of the model), validated event by event against LabRun's actions; then the same
+    with one recorded field corrupted / one event moved or dropped, which must be rejected."""
+    import copy
+    import random
+    from lv import conform, families
+    from lv.families import UNL
+    seed = harness.seed_from_env()
+    cfgs = families.family(3, seed=seed, ntypes=2, maxpars=(1, UNL), maxws=(1, 2), backends=('fork', 'spawn', 'serial'),
+                           cached='all-subsets', reqs='subsets', fails='singles', cofs=(True, False), sample=400)
+    exact = ('plan', 'wait_consume', 'ser_run')
+    scheds = harness.simulate_schedules(cfgs, scratch, num=900, seed=seed) + \
+        [x for x in harness.simulate_schedules(cfgs, scratch, num=900, seed=seed + 1, max_int=2)
+         if all(e[0] != 'int' or e[1] in exact for e in x[1])]
+    rnd = random.Random(seed)
+    jobs = [{'id': f'cf-{k}', 'cfg': cfgs[ci], 'schedule': h, 'shape_seed': rnd.randrange(10 ** 6), 'keep_raw': True}
+            for k, (ci, h, _e) in enumerate(scheds)]
+    traces = harness.run_jobs(jobs, scratch)
+    items = [{'tid': t['tid'], 'cfg': t['cfg'], 'raw': t['raw'], 'dep_order': t.get('dep_order')} for t in traces
+             if t['raw'][-1]['e'] != 'hang']
+    res = conform.validate(items, scratch)
+    rej = [d for d in res['verdicts'].values() if not d['accepted']]
+    # non-vacuity: corrupted recordings must be rejected
+    def corrupt(raw, how):
+        raw = copy.deepcopy(raw)
+        subs = [i for i, e in enumerate(raw) if e['e'] == 'submit']
+        if how == 'swap-submits' and len(subs) >= 2:
+            i, j = subs[0], subs[1]
+            raw[i], raw[j] = raw[j], raw[i]
+        elif how == 'held' and any(e['e'] == 'complete' for e in raw):
+            e = next(e for e in raw if e['e'] == 'complete')
+            e['held'] = sorted(set(e['held']) ^ {1})
+        elif how == 'drop-pstart' and any(e['e'] == 'pstart' for e in raw):
+            raw.remove(next(e for e in raw if e['e'] == 'pstart'))
+        elif how == 'uc' and subs:
+            raw[subs[0]]['uc'] = 1 - raw[subs[0]]['uc']
+        else:
+            return None
+        return raw
+    bad_items, k = [], 0
+    for it in items[:200]:
+        how = ('swap-submits', 'held', 'drop-pstart', 'uc')[k % 4]
+        raw = corrupt(it['raw'], how)
+        if raw is not None and conform.project(raw) != conform.project(it['raw']):
+            bad_items.append({'tid': f'{it["tid"]}~{how}', 'cfg': it['cfg'], 'raw': raw, 'dep_order': it.get('dep_order')})
+            k += 1
+    bres = conform.validate(bad_items, scratch)
+    missed = [d['tid'] for d in bres['verdicts'].values() if d['accepted']]
+    first = rej[0] if rej else None
+    ok = not rej and not missed and len(items) > 100 and len(bad_items) > 50
+    return ok, (f'LabRunTrace: {len(items)} recorded executions ({sum(1 for t in traces if any(e["e"] == "int" for e in t["raw"]))} interrupted), '
+                f'{len(items) - len(rej)} are behaviours of LabRun ({res["states"]} states); {len(bad_items)} corrupted recordings, '
+                f'{len(bad_items) - len(missed)} rejected'
+                + (f'; first unexplained: {json.dumps(first)[:400]}' if first else '') + (f'; corrupted but accepted: {missed[:5]}' if missed else ''))
+
+
 def main() -> int:
     t0 = time.time()
     ok = True
@@ -84,6 +143,9 @@ def main() -> int:
             good, msg = _one(scratch, *args)
             print(('[ok] ' if good else '[MISMATCH] ') + msg)
             ok = ok and good
+        good, msg = labrun_conformance(scratch)
+        print(('[ok] ' if good else '[MISMATCH] ') + msg)
+        ok = ok and good
         good, msg = labrun_growth(scratch)
         print(('[ok] ' if good else '[MISMATCH] ') + msg)
         ok = ok and good
